@@ -42,6 +42,7 @@ def run(ctx):
                 ctx.ob("C05.rhs", tag, False, f"update raises {R.exc!r}", mloc)
                 continue
             analyse(ctx, R, tag, mloc)
+    rhs_pure(ctx)
     ctx.floor("C05.rhs", 12)
     ctx.floor("C05.guards", 4)
     ctx.floor("C05.args", 4)
@@ -50,10 +51,11 @@ def run(ctx):
 def analyse(ctx, R, tag, loc):
     t, y, res = R.rhs_calls[0]
     base = {}
-    for c in list(res.flat):
-        for a in alg.atoms_of(alg.unfold_all(lift(c)), deep=True):
-            if a.kind == "fn:L":
-                base[a] = 1
+    for _t, _y, res_k in R.rhs_calls:
+        for c in list(res_k.flat) if isinstance(res_k, np.ndarray) else []:
+            for a in alg.atoms_of(alg.unfold_all(lift(c)), deep=True):
+                if a.kind == "fn:L":
+                    base[a] = 1
     for kw in [R.deriv_calls[0][1]]:
         bad = []
         for k, v in kw.items():
@@ -95,7 +97,7 @@ def analyse(ctx, R, tag, loc):
             for a in g:
                 cmp_leaves(a, acc)
     n_g = 0
-    for g, outcome, gloc, fn in R.I.guards:
+    for g, outcome, gloc, fn in list(R.I.guards) + list(R.I.branches):
         if not fn.endswith("eval_rhs"):
             continue
         leaves = []
@@ -143,3 +145,29 @@ def analyse(ctx, R, tag, loc):
         if extra in kw and kw[extra] is not None:
             d = driver.degree(lift(kw[extra]), tbase)
             ctx.ob("C05.knobs", f"{tag}:{extra}", d == 1 or str(kw[extra]) == "inf", f"{extra} = {short(kw[extra])}", loc)
+
+
+def rhs_pure(ctx):
+    """The right-hand side handed to the solver is a function of (t, y): the only state it may write outside its own frame is the regime
+    reported by the optional callback.  A value cached between evaluations is reused at another time or strain rate."""
+    import ast
+    from .. import flow
+    ctx.rule("C05.rhs-pure", "eval_rhs writes no state that survives the call (closure cells, containers of the enclosing scope, attributes), except self.regime")
+    mod = ctx.program.module("pydrex.minerals")
+    upd = ctx.program.require_method("pydrex.minerals.Mineral", "update_orientations")
+    fns = [n for n in ast.walk(upd) if isinstance(n, ast.FunctionDef) and n.name == "eval_rhs"]
+    if len(fns) != 1:
+        ctx.ob("C05.rhs-pure", "eval_rhs", "inconclusive", f"{len(fns)} nested functions named eval_rhs in update_orientations", ctx.program.loc(mod, upd))
+        return
+    fn = fns[0]
+    eff = flow.effects_of_function(ctx.program, mod, fn)
+    muts = ("append", "extend", "insert", "pop", "remove", "clear", "update", "setdefault", "add", "discard", "popitem", "sort", "reverse")
+    locs, _ = flow.local_names(fn)
+    for n in flow.walk_shallow(fn):
+        if isinstance(n, ast.Call) and isinstance(n.func, ast.Attribute) and n.func.attr in muts:
+            r = flow._root_name(n.func.value)
+            if r is not None and r not in locs and r not in ("np", "_log", "kwargs"):
+                eff.append(("mutating-call-free", ast.unparse(n.func), n.lineno))
+    bad = [e for e in eff if not (e[0] == "attr-store-free" and e[1] == "self.regime")]
+    ctx.ob("C05.rhs-pure", "eval_rhs", not bad, "; ".join(f"{k} {nm} (line {ln})" for k, nm, ln in bad[:4]) +
+           ": state carried from one evaluation of the right-hand side to the next", f"{ctx.program.relpath(mod.path)}:{bad[0][2] if bad else fn.lineno}")
